@@ -213,6 +213,9 @@ def run_batch(check, tier, seed, indices, ws, mod, agg, keep=(), max_viol=12,
                 if obj.get('fatal'):
                     raise Harness('worker %d: %s' % (w.wid, obj.get('msg')))
                 obj['wid'] = w.wid
+                w.nres = getattr(w, 'nres', 0) + 1
+                w.tlast = time.monotonic() - t0
+                w.cpu = getattr(w, 'cpu', 0.0) + obj.get('wall', 0)
                 obj['pop'] = obj.get('pop') or (
                     mod.population(obj['idx'])
                     if hasattr(mod, 'population') else None)
@@ -241,6 +244,11 @@ def run_batch(check, tier, seed, indices, ws, mod, agg, keep=(), max_viol=12,
         sel.unregister(w.p.stdout)
     sel.close()
     skipped = sum(len(q) for q in queues.values())
+    if os.environ.get('SIM_PROGRESS'):
+        for w in ws:
+            sys.stderr.write('worker %2d hs=%s runs=%d busy=%.1fs last=%.1fs\n' % (
+                w.wid, w.hashseed, getattr(w, 'nres', 0),
+                getattr(w, 'cpu', 0.0), getattr(w, 'tlast', 0.0)))
     return results, skipped
 
 
